@@ -47,8 +47,9 @@ Theorem C04_geom_margin_gap_sum :
 Proof. exact margin_gap_geoms. Qed.
 Print Assumptions C04_geom_margin_gap_sum.
 
-(* ---- mix_rule: priority / solmix / max-friction / condim / solref rule = mj_contactParam,
-        whenever the priorities are equal or both solref are in standard (positive) format ---- *)
+(* ---- mix_rule: priority / solmix / max-friction / condim / solref rule = mj_contactParam, for EVERY input
+        (until commit c20ef50 this needed "priorities equal or both solref positive"; the refuted case is
+        kept below as the regression witness C04_priority_direct_solref_witness) ---- *)
 Theorem C04_mix_rule :
   forall (gc gp : Z -> Z) (gsm : Z -> Z -> R) (gsr gsi gf : Z -> Z -> list R) (ga : Z -> Z -> R)
          (pd : Z -> Z) (psr psrf psi : Z -> Z -> list R) (pa : Z -> Z -> R) (pf : Z -> Z -> list R)
@@ -59,7 +60,6 @@ Theorem C04_mix_rule :
     length (g_solref A) = 2%nat -> length (g_solref B) = 2%nat ->
     length (g_solimp A) = 5%nat -> length (g_solimp B) = 5%nat ->
     length (g_friction A) = 3%nat -> length (g_friction B) = 3%nat ->
-    (g_priority A = g_priority B \/ (0 < vget (g_solref A) 0 /\ 0 < vget (g_solref B) 0)) ->
     contact_material_params gc gp gsm gsr gsi gf ga pd psr psrf psi pa pf geoms pairid w
       npf npsr npsrf npsi npa nsm nf nsr nsi na
     = mj_contact_param A B.
@@ -72,8 +72,7 @@ Theorem C04_solmix_weight :
 Proof. exact mjw_mix_rule. Qed.
 Print Assumptions C04_solmix_weight.
 
-(* ---- what the code does when priorities differ: solref is the higher-priority geom's ONLY if both
-        solref are positive, otherwise the element-wise minimum (everything else is the rule) ---- *)
+(* ---- different priorities: every parameter, solref in either format included, is the higher-priority geom's ---- *)
 Theorem C04_priority_second_geom :
   forall (gc gp : Z -> Z) (gsm : Z -> Z -> R) (gsr gsi gf : Z -> Z -> list R) (ga : Z -> Z -> R)
          (pd : Z -> Z) (psr psrf psi : Z -> Z -> list R) (pa : Z -> Z -> R) (pf : Z -> Z -> list R)
@@ -87,7 +86,7 @@ Theorem C04_priority_second_geom :
     (g_priority B > g_priority A)%Z ->
     contact_material_params gc gp gsm gsr gsi gf ga pd psr psrf psi pa pf geoms pairid w
       npf npsr npsrf npsi npa nsm nf nsr nsi na
-    = (g_condim B, unpack_friction (g_friction B), mjw_priority_solref B A, [0; 0], g_solimp B, g_adhesion B).
+    = (g_condim B, unpack_friction (g_friction B), g_solref B, [0; 0], g_solimp B, g_adhesion B).
 Proof. exact material_priority_second. Qed.
 Print Assumptions C04_priority_second_geom.
 
@@ -104,22 +103,21 @@ Theorem C04_priority_first_geom :
     (g_priority A > g_priority B)%Z ->
     contact_material_params gc gp gsm gsr gsi gf ga pd psr psrf psi pa pf geoms pairid w
       npf npsr npsrf npsi npa nsm nf nsr nsi na
-    = (g_condim A, unpack_friction (g_friction A), mjw_priority_solref A B, [0; 0], g_solimp A, g_adhesion A).
+    = (g_condim A, unpack_friction (g_friction A), g_solref A, [0; 0], g_solimp A, g_adhesion A).
 Proof. exact material_priority_first. Qed.
 Print Assumptions C04_priority_first_geom.
 
-(* ---- the unrestricted rule is REFUTED by the faithful model: geom 1 has the higher priority and
-        solref (0.02, 1), geom 0 has the direct-format solref (-100, -10); mj_contactParam copies geom 1's
-        solref, contact_material_params returns (-100, -10).  bin/props/C04.py replays this witness on
-        the real kernels and on mujoco.mj_collision (finding C04:contact_material_params:priority-direct-solref) *)
-Theorem C04_mix_rule_refuted :
-  let A := geom_of (fun _ => 3%Z) (fun g => g) (fun _ _ => 1) wit_solref wit_solimp wit_friction (fun _ _ => 0) 0 1 1 1 1 1 0%Z in
-  let B := geom_of (fun _ => 3%Z) (fun g => g) (fun _ _ => 1) wit_solref wit_solimp wit_friction (fun _ _ => 0) 0 1 1 1 1 1 1%Z in
-  contact_material_params (fun _ => 3%Z) (fun g => g) (fun _ _ => 1) wit_solref wit_solimp wit_friction (fun _ _ => 0)
-    (fun _ => 0%Z) wit_nil wit_nil wit_nil (fun _ _ => 0) wit_nil [0%Z; 1%Z] (-1) 0 1 1 1 1 1 1 1 1 1 1
-  <> mj_contact_param A B.
-Proof. exact mix_rule_refuted_witness. Qed.
-Print Assumptions C04_mix_rule_refuted.
+(* ---- regression witness of the repaired finding C04:contact_material_params:priority-direct-solref:
+        geom 1 has the higher priority and solref (0.02, 1), geom 0 the direct-format solref (-100, -10): the
+        contact gets (0.02, 1) (the code used to return the element-wise minimum (-100, -10)).
+        bin/props/C04.py replays it on the real kernel and on mujoco.mj_collision ---- *)
+Theorem C04_priority_direct_solref_witness :
+  let '(_, _, solref, _, _, _) :=
+    contact_material_params (fun _ => 3%Z) (fun g => g) (fun _ _ => 1) wit_solref wit_solimp wit_friction (fun _ _ => 0)
+      (fun _ => 0%Z) wit_nil wit_nil wit_nil (fun _ _ => 0) wit_nil [0%Z; 1%Z] (-1) 0 1 1 1 1 1 1 1 1 1 1 in
+  solref = [2/100; 1].
+Proof. exact priority_direct_solref_witness. Qed.
+Print Assumptions C04_priority_direct_solref_witness.
 
 (* ---- friction floor on every path ---- *)
 Theorem C04_friction_floor :
@@ -214,7 +212,7 @@ Proof. exact contact_params_compose. Qed.
 Print Assumptions C04_contact_params_compose.
 
 (* ---- non-vacuity ---- *)
-(* hypotheses of C04_mix_rule are satisfiable with different priorities and standard solref *)
+(* hypotheses of C04_mix_rule / C04_priority_*_geom (shapes, different priorities) are satisfiable *)
 Example C04_mix_rule_hyp_sat :
   let gsr := fun (_ _ : Z) => [2/100; 1] in
   let A := geom_of (fun _ => 3%Z) (fun g => g) (fun _ _ => 1) gsr wit_solimp wit_friction (fun _ _ => 0) 0 1 1 1 1 1 0%Z in
